@@ -79,6 +79,11 @@ func (o *overlayer) overlayField(base, overlay reflect.Value) error {
 			return nil
 		}
 		// both pointers are non-nil, and it's a pointerified struct.
+		if overlay.Kind() != reflect.Ptr {
+			// a struct that reached us by value (through an
+			// interface-typed field, which is not pointerified)
+			return o.overlayStruct(base.Elem(), overlay)
+		}
 		return o.overlayStruct(base.Elem(), overlay.Elem())
 	case reflect.Interface:
 		return o.overlayInterface(base, overlay)
